@@ -443,7 +443,6 @@ class C14_add_finite(Lemma):
         return {
             'grid': grid_ok_fmt(R, g) and g <= s._exp,
             'exp': implies(s._c != 0, exp_fits(s._exp, R)),
-            'prec': implies(s._c != 0, prec_fits(s._c, R)),
             'le_pos': le_pos(s._s, s._exp, s._c, R, g),
             'ge_neg': ge_neg(s._s, s._exp, s._c, R, g),
         }
@@ -503,7 +502,91 @@ class C14_sub_finite(Lemma):
         return {
             'grid': grid_ok_fmt(R, g) and g <= s._exp,
             'exp': implies(s._c != 0, exp_fits(s._exp, R)),
-            'prec': implies(s._c != 0, prec_fits(s._c, R)),
             'le_pos': le_pos(s._s, s._exp, s._c, R, g),
             'ge_neg': ge_neg(s._s, s._exp, s._c, R, g),
         }
+
+
+class C14_mul_special(Lemma):
+    """product: result format is well-formed; NaN / infinities / -0 of the exact product are members"""
+    params = {'A': 'AbstractFormat', 'B': 'AbstractFormat', 'a': 'Float', 'b': 'Float'}
+    overrides = {'A.prec': 'int | PosInf', 'A.exp': 'int | NegInf',
+                 'A.pos_bound': 'RealFloat | PosInf', 'A.neg_bound': 'RealFloat | NegInf',
+                 'B.prec': 'int | PosInf', 'B.exp': 'int | NegInf',
+                 'B.pos_bound': 'RealFloat | PosInf', 'B.neg_bound': 'RealFloat | NegInf'}
+    split = ['A.prec', 'A.exp', 'A.pos_bound', 'A.neg_bound']
+    properties = ['C14']
+    options = {'light_first': True, 'theory_light': True}
+
+    def pre(A, B, a, b):
+        return {'wfA': wf(A), 'wfB': wf(B), 'repA': bounds_rep(A), 'repB': bounds_rep(B),
+                'smallA': small(A), 'smallB': small(B),
+                'memA': mem_sp_v(a, A), 'memB': mem_sp_v(b, B)}
+
+    def post(A, B, a, b):
+        R = A * B
+        out = wf_clauses(R, 'wf')
+        out.update({
+            'nan': implies(mul_nan(a, b), R.has_nan),
+            'inf': implies(mul_inf(a, b), ite(mul_sign(a, b), R.has_neg_inf, R.has_pos_inf)),
+            'neg_zero': implies(mul_neg_zero(a, b), R.has_neg_zero),
+        })
+        return out
+
+
+
+class C14_add_prec(Lemma):
+    """add: the exact result of two finite members fits the precision of the result format.  The grid is chosen
+    as the result quantum 2^min(A.exp, B.exp) (a legal grid: it lies below every exponent involved), so that the
+    renormalised largest bound is the integer Z_g(max bound) and bit_length is monotone."""
+    params = {'A': 'AbstractFormat', 'B': 'AbstractFormat', 'a': 'Float', 'b': 'Float'}
+    overrides = {'A.prec': 'int | PosInf', 'A.exp': 'int | NegInf',
+                 'A.pos_bound': 'RealFloat | PosInf', 'A.neg_bound': 'RealFloat | NegInf',
+                 'B.prec': 'int | PosInf', 'B.exp': 'int | NegInf',
+                 'B.pos_bound': 'RealFloat | PosInf', 'B.neg_bound': 'RealFloat | NegInf'}
+    split = ['A.prec', 'A.exp', 'A.pos_bound', 'A.neg_bound']
+    properties = ['C14']
+    options = {'light_first': True, 'bounded_fallback': 8, 'bounded_ms': 30000}
+
+    def pre(A, B, a, b):
+        g = GRID()
+        out = {'wfA': wf(A), 'wfB': wf(B), 'repA': bounds_rep(A), 'repB': bounds_rep(B),
+               'grid': grid_ok_fmt(A, g) and grid_ok_fmt(B, g),
+               'grid_is_quantum': True if (is_fl(A.exp) or is_fl(B.exp)) else g == imin(A.exp, B.exp)}
+        out.update(fin_member_clauses(a, A, g, 'a'))
+        out.update(fin_member_clauses(b, B, g, 'b'))
+        return out
+
+    def post(A, B, a, b):
+        R = A + B
+        s = a._real + b._real
+        return {'prec': implies(s._c != 0, prec_fits(s._c, R))}
+
+
+
+class C14_sub_prec(Lemma):
+    """sub: the exact result of two finite members fits the precision of the result format.  The grid is chosen
+    as the result quantum 2^min(A.exp, B.exp) (a legal grid: it lies below every exponent involved), so that the
+    renormalised largest bound is the integer Z_g(max bound) and bit_length is monotone."""
+    params = {'A': 'AbstractFormat', 'B': 'AbstractFormat', 'a': 'Float', 'b': 'Float'}
+    overrides = {'A.prec': 'int | PosInf', 'A.exp': 'int | NegInf',
+                 'A.pos_bound': 'RealFloat | PosInf', 'A.neg_bound': 'RealFloat | NegInf',
+                 'B.prec': 'int | PosInf', 'B.exp': 'int | NegInf',
+                 'B.pos_bound': 'RealFloat | PosInf', 'B.neg_bound': 'RealFloat | NegInf'}
+    split = ['A.prec', 'A.exp', 'A.pos_bound', 'A.neg_bound']
+    properties = ['C14']
+    options = {'light_first': True, 'bounded_fallback': 8, 'bounded_ms': 30000}
+
+    def pre(A, B, a, b):
+        g = GRID()
+        out = {'wfA': wf(A), 'wfB': wf(B), 'repA': bounds_rep(A), 'repB': bounds_rep(B),
+               'grid': grid_ok_fmt(A, g) and grid_ok_fmt(B, g),
+               'grid_is_quantum': True if (is_fl(A.exp) or is_fl(B.exp)) else g == imin(A.exp, B.exp)}
+        out.update(fin_member_clauses(a, A, g, 'a'))
+        out.update(fin_member_clauses(b, B, g, 'b'))
+        return out
+
+    def post(A, B, a, b):
+        R = A - B
+        s = a._real - b._real
+        return {'prec': implies(s._c != 0, prec_fits(s._c, R))}
